@@ -7,7 +7,11 @@
 
 package simdjson
 
-import "math"
+import (
+	"errors"
+	"math"
+	"strconv"
+)
 
 var _ = math.MaxInt64
 
@@ -565,3 +569,99 @@ func wfExtents(T []uint64) bool {
 //@   callreq fn infilter: len(onlyKeys) == 0 || inKeys(onlyKeys, name)
 //@   ensures onlynops: forall(0, len(o.tape.Tape), func(j int) bool { return o.tape.Tape[j] == old(o.tape.Tape)[j] || (tagOf(o.tape.Tape[j]) == TagNop && j >= o.off) })
 //@   safe
+
+// ---------------------------------------------------------------------------
+// Numbers (C01 grammar side, C03 typing). strconv is an assumed dependency: the specParse* functions
+// below are its results as functions of the bytes (uninterpreted in proofs, executable in replays).
+
+func specParseIntOK(b []byte) bool    { _, err := strconv.ParseInt(string(b), 10, 64); return err == nil }
+func specParseIntVal(b []byte) uint64 { v, _ := strconv.ParseInt(string(b), 10, 64); return uint64(v) }
+func specParseIntRange(b []byte) bool {
+	_, err := strconv.ParseInt(string(b), 10, 64)
+	return errors.Is(err, strconv.ErrRange)
+}
+func specParseUintOK(b []byte) bool    { _, err := strconv.ParseUint(string(b), 10, 64); return err == nil }
+func specParseUintVal(b []byte) uint64 { v, _ := strconv.ParseUint(string(b), 10, 64); return v }
+func specParseUintRange(b []byte) bool {
+	_, err := strconv.ParseUint(string(b), 10, 64)
+	return errors.Is(err, strconv.ErrRange)
+}
+func specParseFloatOK(b []byte) bool { _, err := strconv.ParseFloat(string(b), 64); return err == nil }
+func specParseFloatBits(b []byte) uint64 {
+	v, _ := strconv.ParseFloat(string(b), 64)
+	return math.Float64bits(v)
+}
+
+func rangeIndex() int { return 0 } // the hidden index of the enclosing range loop (proof-only)
+
+func isDigitByte(c byte) bool { return '0' <= c && c <= '9' }
+func isFloatOnlyByte(c byte) bool { return c == '.' || c == 'e' || c == 'E' }
+func isNumberByte(c byte) bool {
+	return isDigitByte(c) || c == '.' || c == '+' || c == '-' || c == 'e' || c == 'E'
+}
+
+// end-of-value bytes of parseNumber's table
+func isEOVByte(c byte) bool {
+	return c == ',' || c == '}' || c == ']' || c == ' ' || c == '\t' || c == '\r' || c == '\n' || c == ':'
+}
+
+// tokenEnd(buf,p): buf[:p] is the maximal run of number bytes and it is followed by an end-of-value byte or the end
+func tokenEnd(buf []byte, p int) bool {
+	return 0 <= p && p <= len(buf) && forall(0, p, func(j int) bool { return isNumberByte(buf[j]) }) &&
+		implies(p < len(buf), isEOVByte(buf[p]))
+}
+
+func hasFloatOnly(buf []byte, p int) bool {
+	return exists(0, p, func(j int) bool { return isFloatOnlyByte(buf[j]) })
+}
+func hasMinus(buf []byte, p int) bool {
+	return exists(0, p, func(j int) bool { return buf[j] == '-' })
+}
+
+// RFC 8259: int = zero / ( digit1-9 *DIGIT ): a leading zero (after an optional minus) is not followed by a digit
+func noLeadingZero(buf []byte, p int) bool {
+	return implies(p >= 2 && buf[0] == '0', !isDigitByte(buf[1])) &&
+		implies(p >= 3 && buf[0] == '-' && buf[1] == '0', !isDigitByte(buf[2]))
+}
+
+//@ func parseNumber
+//@   props C01 C03
+//@   summary
+//@   ghost p int
+//@   requires tokenEnd(buf, p)
+//@   ensures[C01] nonempty: implies(id != 0, p > 0)
+//@   ensures[C01] digitafter: implies(id != 0, forall(0, p, func(j int) bool { return implies(buf[j] == '.' || buf[j] == '-', j+1 < len(buf) && isDigitByte(buf[j+1])) }))
+//@   ensures[C01] leadingzero: implies(id != 0, noLeadingZero(buf, p))
+//@   ensures[C01,C03] tags: id == 0 || id == uint64(TagInteger)<<56 || id == uint64(TagUint)<<56 || id == uint64(TagFloat)<<56 || id == uint64(TagFloat)<<56|uint64(FloatOverflowedInteger)
+//@   ensures[C03] integer: implies(id == uint64(TagInteger)<<56, !hasFloatOnly(buf, p) && specParseIntOK(buf[:p]) && val == specParseIntVal(buf[:p]))
+//@   ensures[C03] unsigned: implies(id == uint64(TagUint)<<56, !hasFloatOnly(buf, p) && !hasMinus(buf, p) && !specParseIntOK(buf[:p]) && specParseUintOK(buf[:p]) && val == specParseUintVal(buf[:p]))
+//@   ensures[C03,C01] float: implies(tagOf(id) == TagFloat, specParseFloatOK(buf[:p]) && val == specParseFloatBits(buf[:p]))
+//@   ensures[C03] flagonly: implies(id == uint64(TagFloat)<<56|uint64(FloatOverflowedInteger), !hasFloatOnly(buf, p))
+//@   ensures[C03] flagalways: implies(id == uint64(TagFloat)<<56 && !hasFloatOnly(buf, p), p <= 20 && !specParseIntOK(buf[:p]) && !specParseIntRange(buf[:p]) && (hasMinus(buf, p) || !specParseUintRange(buf[:p])))
+//@   ensures[C03] intfirst: implies(tagOf(id) == TagFloat && !hasFloatOnly(buf, p) && p <= 20, !specParseIntOK(buf[:p]) && (hasMinus(buf, p) || !specParseUintOK(buf[:p])))
+//@   invariant 0 0 <= pos && pos == rangeIndex()+1 && pos <= p && rangeIndex() < p
+//@   invariant 0 nofloat: implies(found&isFloatOnlyFlag == 0, forall(0, pos, func(j int) bool { return !isFloatOnlyByte(buf[j]) }))
+//@   invariant 0 somefloat: implies(found&isFloatOnlyFlag != 0, hasFloatOnly(buf, pos))
+//@   invariant 0 nominus: implies(found&isMinusFlag == 0, forall(0, pos, func(j int) bool { return buf[j] != '-' }))
+//@   invariant 0 someminus: implies(found&isMinusFlag != 0, hasMinus(buf, pos))
+//@   invariant 0 digits: forall(0, pos, func(j int) bool { return implies(buf[j] == '.' || buf[j] == '-', j+1 < len(buf) && isDigitByte(buf[j+1])) })
+//@   safe [C05]
+
+func isFollowByte(c byte) bool {
+	return c == ' ' || c == '\t' || c == '\n' || c == '\r' || c == ',' || c == ':' || c == '[' || c == ']' || c == '{' || c == '}'
+}
+
+//@ func isValidTrueAtom
+//@   props C01
+//@   ensures exact: iff(result, len(buf) >= 5 && buf[0] == 't' && buf[1] == 'r' && buf[2] == 'u' && buf[3] == 'e' && isFollowByte(buf[4]))
+//@   safe [C05]
+
+//@ func isValidNullAtom
+//@   props C01
+//@   ensures exact: iff(result, len(buf) >= 5 && buf[0] == 'n' && buf[1] == 'u' && buf[2] == 'l' && buf[3] == 'l' && isFollowByte(buf[4]))
+//@   safe [C05]
+
+//@ func isValidFalseAtom
+//@   props C01
+//@   ensures exact: iff(result, len(buf) >= 6 && buf[0] == 'f' && buf[1] == 'a' && buf[2] == 'l' && buf[3] == 's' && buf[4] == 'e' && isFollowByte(buf[5]))
+//@   safe [C05]
